@@ -24,13 +24,13 @@ CHECKS = {
  "C08": ("invariant monitor on every returned *Match (accessor order varied; rune slices with unencodable values) + reference rune/byte index map", "3 C08",
          "Structural invariants of all captures of all groups and ByteRange exactness are asserted for every match reachable through string chain, rune chain, StartingAt and ReplaceFunc evaluators, on inputs with multi-byte runes and invalid bytes.",
          "Index map oracle is harness code."),
- "C06": ("differential monitor: every compat.Matcher method (RE2 option) vs Go's regexp package on generated common-syntax patterns", "3 C06",
-         "22 methods x n in {-1,0,1,2,3} are compared by deep equality (nil-ness, byte offsets, -1 pairs) on ASCII, multi-byte, invalid-UTF-8 and empty inputs; two documented divergences are known findings with explained-by classes.",
+ "C06": ("differential monitor: every compat.Matcher method (RE2 option) vs Go's regexp package on generated common-syntax patterns and three text families (nested counted loops explained by the multiplied pattern, long counts before a literal, POSIX classes)", "3 C06",
+         "22 methods x n in {-1,0,1,2,3} are compared by deep equality (nil-ness, byte offsets, -1 pairs) on ASCII, multi-byte, invalid-UTF-8 and empty inputs; capacities of returned byte slices compared too; five divergences are known findings (K1-K3, K6, K7), each accepted only through an explained-by recomputation or inside its directed family.",
          "Go's regexp is the oracle; patterns Go rejects are skipped; text-returning forms compared on valid UTF-8 only."),
  "C09": ("reference fold over the match sequence + $-grammar expander vs Replace / ReplaceFunc / Split", "3 C09",
          "Replace is recomputed as a fold over the FindStringMatchStartingAt/FindNextMatch sequence with an independent expander of the documented $-grammar; ReplaceFunc, the $& identity, argument errors, cache sizes and Split (piece by piece, re-joined) are asserted in both directions.",
          "The expander (internal/ref/replace.go) is harness code written from the documentation; the match sequence comes from the find API."),
- "C10": ("panic / fatal / error-class / bounded-progress monitors over structure-aware mutation and generated patterns in child processes, hostile arguments, deterministic regression probes; thorough adds coverage-guided go test -fuzz; a share under -race (checkptr)", "3 C10",
+ "C10": ("panic / fatal / error-class / bounded-progress monitors over structure-aware mutation and generated patterns in child processes, hostile arguments, cache-limit compile options, 300 KB inputs, deterministic regression probes; thorough adds coverage-guided go test -fuzz; a share under -race (checkptr)", "3 C10",
          "Every exported operation is called for tens of thousands of mutated patterns and hostile inputs; recovered panics, process deaths (attributed to the case logged before execution), unexpected error classes and reproducible timing-bound misses are violations.",
          "Pattern size <= 12 KB; timing bounds are suspects re-run alone 3 times; a clean run is not a proof of absence."),
  "C11": ("race detector + result comparison over concurrent mixed workloads with GOMAXPROCS and hook-point perturbation", "3 C11",
@@ -42,21 +42,21 @@ CHECKS = {
  "C13": ("runtime assertion over limit sweeps: result equals unlimited result or ErrBacktrackingStackLimit, allocation events <= L (verif hook), monotonicity, usability after error", "3 C13",
          "Deep-backtracking patterns are run under ~100 limits each (fixed set, doubling boundaries, bisection threshold +-2); allocation sizes come from the verifTrackAlloc hook.",
          "Timeouts are inconclusive; monotonicity is both used (bisection) and cross-checked (sorted sweep)."),
- "C14": ("timed-history monitor (ten entry points, concurrent deadline computations ordered at hook points, forward-progress matches, period changes): latency window, error class, clock-goroutine presence, with overshoot calibration and 3x isolated re-execution of suspects", "3 C14",
+ "C14": ("timed-history monitor (ten entry points, concurrent deadline computations ordered at hook points, forward-progress matches with and without backward jumps, period changes incl. a negative period): latency window, error class, clock-goroutine presence, with overshoot calibration and 3x isolated re-execution of suspects", "3 C14",
          "Histories of timed catastrophic / quick matches, idle gaps beyond the clock slop, StopTimeoutClock and concurrent deadlines with a 1 ms clock period; verdicts need 3/3 reproduction with low measured scheduler overshoot.",
          "Wall-clock by nature; may come out inconclusive on a loaded machine; ms-level accuracy not claimed."),
- "C17": ("documented numbering rule computed on the AST vs all name/number lookups (also of absent names/numbers), Match.Groups, back-references, replacement references and balancing-group probes", "3 C17",
+ "C17": ("documented numbering rule computed on the AST vs all name/number lookups (also of absent names/numbers), Match.Groups, back-references, replacement references, balancing-group and conditional probes, explicit numbers with leading zeros", "3 C17",
          "Patterns whose groups each capture a unique text are checked under default / MaintainCaptureOrder / ECMAScript / RE2 / ExplicitCapture: lists, four lookups, Groups order, GroupByName/Number, $n/${name}, \\k<n>/\\k<name> all designate the same group.",
          "Numbering rule is harness code; one combination (MaintainCaptureOrder + explicit numbers) is a known finding."),
- "C18": ("metamorphic monitor: compile option vs leading (?O) vs wrapping (?O:...) for all 32 option subsets, (?-O) scoping, and the scope-free local form of the AST compiled without options", "3 C18",
+ "C18": ("metamorphic monitor: compile option vs leading (?O) vs wrapping (?O:...) for all 32 option subsets, (?-O) scoping, the scope-free local form of the AST compiled without options, and the scope-rest law over 34 constructs x 31 option sets x 3 scope spellings", "3 C18",
          "Three compilations of the same text must have equal group maps and equal find results on every input; 32 subsets x ~4000 patterns per quick run.",
          "No external oracle needed (relation between executions)."),
- "C19": ("inverse-function and anchored-literal monitor with near-miss battery", "3 C19",
+ "C19": ("inverse-function and anchored-literal monitor with near-miss battery; Unescape read before and after a rejected text", "3 C19",
          "Unescape(Escape(s)) == s, Escape(s) compiles under literal-preserving option sets, matches s and rejects up to 60 near-misses; thorough covers every code point alone and followed by a hex digit.",
          "Valid UTF-8 strings only."),
- "C20": ("metamorphic monitor: case flips of input letters and of pattern letters / class members / range endpoints under IgnoreCase", "3 C20",
+ "C20": ("metamorphic monitor: case flips of input letters and of pattern letters / class members / range endpoints under IgnoreCase; exhaustive families over all 1,397 simple case pairs (12 constructs) and 518 named classes", "3 C20",
          "Match position and captures must be invariant under flips of simple-pair letters, through rune and string entry points, incl. prefix-search shapes, negated classes, subtractions and back-references.",
-         "Only letters with a simple upper/lower fold orbit are flipped."),
+         "Only letters with a simple upper/lower fold orbit are flipped; seven binary / break properties that are not case-closed are a known finding (K5)."),
  "C15": ("executable specification run leftwards vs engine with RightToLeft; mirror oracle: pattern left-to-right vs its mirror image RightToLeft on the reversed text (single finds and FindNextMatch chains, full syntax)", "3 C15",
          "Same as C01 with the reference matcher started in leftward direction.",
          "As C01."),
